@@ -130,6 +130,18 @@ def plan(prop, tier, seed):
         add(['tb2', 'tb_ev', 'hyb2'], K=2 if q else 3, until='symnc', caches=(False,), lazies=(True,))
         if not q:
             add(['tb2', 'hyb2', 'tb_ev'], K=2, D=1, lazies=(True,))
+    if not q:
+        # generated family: every two-simulator topology of vk.topo.generated(); each property explores a rotating
+        # quarter (offset by property and VERIF_SEED), each selected topology completely
+        gen = T.generated()
+        off = (int(prop[1:]) + seed) % 4
+        for i, t in enumerate(gen):
+            if i % 4 != off:
+                continue
+            lz = (True,) if prop == 'C10' else (True, False)
+            for c in cfgs(t, tier, K=2, masks='all', lazies=lz):
+                c['rules'] = rules
+                jobs.append(job(prop, t, c, budget_s=240))
     # dedupe by id
     seen = set()
     out = []
